@@ -48,10 +48,28 @@ def fill_state(d, u, beta, it):
     return st
 
 
+class NearestCentre:
+    """A clustering model satisfying the clusterer contract used by Trainer/Resampler (fit / predict / n_clusters_, labels in
+    [0, K)): labels a point with the index of the nearest of K fixed centres.  `fit` keeps the model (the pool never changes K)."""
+
+    def __init__(self, centres):
+        self.centres = np.asarray(centres, dtype=float)
+        self.n_clusters_ = len(self.centres)
+        self.labels_ = None
+
+    def fit(self, X, sample_weight=None):
+        self.labels_ = self.predict(X)
+        return self
+
+    def predict(self, X):
+        X = np.atleast_2d(X)
+        return np.argmin(((X[:, None, :] - self.centres[None, :, :]) ** 2).sum(axis=2), axis=1)
+
+
 def scenario(seed, d, n, n_particles, cluster_every, it, n_max_clusters, normalize, first_pool, second_pool, weights_kind):
     rng = np.random.RandomState(seed)
     np.random.seed(seed)
-    clusterer = HierarchicalGaussianMixture(
+    clusterer = NearestCentre(first_pool["centers"]) if normalize == "nearest-centre" else HierarchicalGaussianMixture(
         n_init=1, max_iterations=1000 if n_max_clusters is None else n_max_clusters - 1,
         min_points=None if n_max_clusters is None else 4 * d, threshold_modifier=1.0, covariance_type="full",
         verbose=False, normalize=normalize)
@@ -91,6 +109,11 @@ def scenario(seed, d, n, n_particles, cluster_every, it, n_max_clusters, normali
     if (a < 0).any() or (a >= K).any():
         return (f"assignment {int(a.max())} does not index an existing mode (K_modes={K}, clusterer K={clusterer.n_clusters_}): "
                 f"the kernel would raise IndexError"), what
+    pred = clusterer.predict(uu)
+    if not np.array_equal(a, pred):
+        j = int(np.argmax(a != pred))
+        return (f"particle {j} carries assignment {int(a[j])} but the clustering model labels it {int(pred[j])}: it would be moved with the mode of "
+                f"another cluster (K_modes={K}, clusterer K={clusterer.n_clusters_})"), what
     for k in range(K):
         if not np.all(np.isfinite(ms.means[k])):
             return f"mode {k}: non-finite mean", what
@@ -144,6 +167,18 @@ def main():
         # all modes alive in the pool but only one survives the weight trimming
         cases.append((seed, 2, 240, 32, 2, 3, None, True, two, two, "skewed"))
         cases.append((seed, 2, 240, 32, 1, 3, None, True, None, two, "skewed"))
+        # a fixed K-cluster model (nearest of K centres): a cluster at every position of the label range loses all / almost all of
+        # its particles between refits, or is trimmed out of the training pool
+        four = [[0.2, 0.2], [0.8, 0.8], [0.2, 0.8], [0.8, 0.2]]
+        for dead in range(4):
+            for few in (0.0, 0.004):
+                frac = [1.0] * 4
+                frac[dead] = few
+                for ce, it in ((2, 3), (1, 3)):
+                    cases.append((seed, 2, 400, 32, ce, it, None, "nearest-centre", dict(centers=four, spread=0.03, frac=[1] * 4),
+                                  dict(centers=four, spread=0.03, frac=frac), "uniform"))
+        cases.append((seed, 2, 400, 32, 2, 3, None, "nearest-centre", dict(centers=four, spread=0.03, frac=[1] * 4),
+                      dict(centers=four, spread=0.03, frac=[1] * 4), "skewed"))
     for c in cases:
         tried += 1
         r, what = scenario(*c)
